@@ -278,7 +278,7 @@ def insert_case(rng):
     ids = ["row1", "row2"]
     data_rows = [{"ID": i, "word": w} for i, w in zip(ids, words)]
     tmpl = [
-        {"row_id": "t1", "type": "send_message", "from": "start", "message_text": "T {{word}} {{extra}}"},
+        {"row_id": "t1", "type": "send_message", "from": "start", "message_text": "T {{word}} {{extra}} {{second}} {{third}}"},
         {"row_id": "t2", "type": "send_message", "from": "t1", "message_text": "second {{word}}", "include_if": rng.choice(["", "FALSE", ""])},
     ]
     shape = rng.random()
@@ -300,13 +300,16 @@ def insert_case(rng):
         if picks and rng.random() < 0.6:
             pick, arg = rng.choice(picks)
         else:
-            pick, arg = rng.choice(ids), rng.choice(["E1", ""])
+            # arguments bind by POSITION: a blank entry takes the declared default (also between two given ones), blank
+            # entries beyond the declared parameters are padding
+            pick, arg = rng.choice(ids), rng.choice(["E1", "", "E1;S2;T3", "E1;;T3", ";S2", "E1;;T3;;", ";;T3;", "E1;S2;;;"])
         picks.append((pick, arg))
         bid, aft = f"b{k}", f"aft{k}"
         ins_row = {"row_id": bid, "type": "insert_as_block", "from": prev, "message_text": "tmpl", "data_sheet": "data", "data_row_id": pick, "template_arguments": arg}
         aft_row = {"row_id": aft, "type": "send_message", "from": bid, "message_text": f"after block {k}"}
         main += [ins_row, aft_row]
-        ctx = {"word": words[ids.index(pick)], "extra": arg or "dflt"}
+        given = (arg.split(";") + ["", "", ""])[:3]
+        ctx = {"word": words[ids.index(pick)], "extra": given[0] or "dflt", "second": given[1] or "d2", "third": given[2] or "d3"}
         inst = S.desugar(tmpl, ctx)
         body = []
         for r in inst:
@@ -327,7 +330,7 @@ def insert_case(rng):
         "data": csvt(["ID", "word"], data_rows),
         "tmpl": csvt(G.HEADERS, tmpl),
     }
-    idx = [{"type": "data_sheet", "sheet_name": "data"}, {"type": "template_definition", "sheet_name": "tmpl", "template_arguments": "extra;;dflt|"},
+    idx = [{"type": "data_sheet", "sheet_name": "data"}, {"type": "template_definition", "sheet_name": "tmpl", "template_arguments": "extra;;dflt|second;;d2|third;;d3"},
            {"type": "create_flow", "sheet_name": "main"}]
     a = dict(base, content_index=csvt(ih, idx), main=csvt(G.HEADERS, main))
     b = dict(base, content_index=csvt(ih, idx), main=csvt(G.HEADERS, twin_main))
